@@ -146,6 +146,41 @@ func runBig(c caseT) {
 				ok = audit()
 			}
 		}
+	case "tide":
+		// the list fills to W keys, the oldest quarter is re-indexed (removed and put back under new keys), then it
+		// drains to nothing, newest first; and again
+		next := 0
+		for ok && ops < b.N {
+			var gen []int
+			for ok && len(gen) < b.W {
+				next++
+				k := int(mix64(uint64(next)*2654435761+b.RSeed) % 1_000_000_007)
+				if _, had := model[k]; had {
+					continue
+				}
+				ok = put(k, next)
+				gen = append(gen, k)
+			}
+			for i := 0; ok && i < len(gen)/4; i++ {
+				ok = rem(gen[i])
+				if ok {
+					next++
+					gen[i] = gen[i] + 1_000_000_007 + next
+					ok = put(gen[i], next)
+				}
+			}
+			ok = ok && audit()
+			for i := len(gen) - 1; ok && i >= 0; i-- {
+				if i%3 == 0 {
+					ok = get(gen[i])
+				}
+				ok = ok && rem(gen[i])
+				if ok && i == len(gen)/5 {
+					ok = audit()
+				}
+			}
+			ok = ok && audit()
+		}
 	case "oscillate":
 		lo, hi := max(b.W-b.W/5-20, 0), b.W+b.W/5+20
 		fresh := func() int {
@@ -205,6 +240,15 @@ func runBig(c caseT) {
 	}
 }
 
+func mix64(x uint64) uint64 {
+	x ^= x >> 30
+	x *= 0xbf58476d1ce4e5b9
+	x ^= x >> 27
+	x *= 0x94d049bb133111eb
+	x ^= x >> 31
+	return x
+}
+
 func bigCases(t *testing.T) {
 	n := 0
 	run := func(c caseT) {
@@ -223,9 +267,13 @@ func bigCases(t *testing.T) {
 			run(caseT{Site: "big", Order: o.order, HSeed: int64(i+1)*9_000_011 + int64(w), Big: &bigT{Family: "window", N: rounds, W: w, Dir: o.dir, RSeed: uint64(i)}})
 		}
 	}
-	ths := []int{1097, 2981, 8103, 22026, 1024, 4096, 8192, 16384}
+	ths := []int{1097, 2981, 8103, 22026, 1024, 4096, 8192, 16384, 59874, 65536}
 	for i, th := range ths {
-		orders := []string{"int", "rev", "mod", "str"}
-		run(caseT{Site: "big", Order: orders[i%4], HSeed: int64(i+1) * 5_000_017, Big: &bigT{Family: "oscillate", N: common.Pick(400_000, 4_000_000), W: th, RSeed: uint64(100 + i)}})
+		orders := []string{"int", "rev", "mod", "str", "ptr", "iface"}
+		run(caseT{Site: "big", Order: orders[i%6], HSeed: int64(i+1) * 5_000_017, Big: &bigT{Family: "oscillate", N: common.Pick(400_000, 4_000_000), W: th, RSeed: uint64(100 + i)}})
+	}
+	for i, w := range []int{300, 5000, 20000, 70000, 140000} {
+		orders := []string{"int", "ptr", "rev", "int", "str"}
+		run(caseT{Site: "big", Order: orders[i], HSeed: int64(i+1) * 3_000_029, Big: &bigT{Family: "tide", N: max(common.Pick(600_000, 5_000_000), 5*w), W: w, RSeed: uint64(200 + i)}})
 	}
 }
